@@ -81,7 +81,12 @@ def run_case(run, drv, case_seed, pool):
         for k, v in list(req.items()):
             if v is None:
                 del req[k]
-        if case_seed < 0:
+        if case_seed in (-4, -5):
+            # fixed shapes: the edited metafile is exactly as long as the one it replaces
+            impl.edit(m["path"], {"comment": "pass-key-AAAA", "source": "S1"})
+            old = m["raw"] = open(m["path"], "rb").read()
+            req = {"comment": "pass-key-BBBB"} if case_seed == -4 else {"source": "S2", "comment": "pass-key-CCCC"}
+        elif case_seed < 0:
             # fixed shapes: the edited encoding is exactly k * 65536 + 1 bytes long (chunked writers)
             target = {-1: 65537, -2: 131073, -3: 65536}[case_seed]
             req = {"comment": "x"}
@@ -191,6 +196,48 @@ def run_case(run, drv, case_seed, pool):
                 drv.ask(f"editerror 9 0 {hx(old)} none", ("state", fc, verdict))
 
 
+def interactive_route(run, pool):
+    """The same faults through the interactive editor (a metafile without trackers, one comment
+    typed at the prompt): whichever front end performs the edit, the path holds the complete
+    previous or the complete edited metafile."""
+    rng = random.Random(4711)
+    with sandbox("c17i") as box:
+        m = metas.make_meta(rng, box, version=rng.choice([1, 2, 3]), via_cli=False, opts={})
+        old = m["raw"]
+        req = {"comment": "typed at the prompt"}
+        ref = os.path.join(box, "ref.torrent")
+        shutil.copy(m["path"], ref)
+        rc, obs, err = inject({"mode": "none", "route": "interactive", "metafile": ref, "req": req}, box)
+        new = open(ref, "rb").read() if os.path.exists(ref) else b""
+        case = {"route": "interactive", "version": m["version"], "req": req}
+        try:
+            ok = refspec.strict_decode(new)[b"info"].get(b"comment") == b"typed at the prompt"
+        except Exception:
+            ok = False
+        if not ok:
+            run.fail("impl-vs-spec", case, {"why": "the fault-free interactive edit did not produce a complete "
+                                                   "metafile with the comment set", "raised": obs and obs.get("raised")})
+            return
+        jobs = []
+        for i, f in enumerate([f for f in faults_for(len(new)) if not f.get("readonly_dir") and not f.get("warmup")]):
+            path = os.path.join(box, f"i{i}.torrent")
+            shutil.copy(m["path"], path)
+            jobs.append((f, path, pool.submit(inject, dict(f, route="interactive", metafile=path, req=req), box)))
+        for f, path, fut in jobs:
+            rc, obs, err = fut.result()
+            if rc != 37 and obs is None:
+                raise MachineryError(f"fault runner failed rc={rc}: {err}")
+            state = open(path, "rb").read() if os.path.isfile(path) and not os.path.islink(path) else None
+            verdict = "old" if state == old else "new" if state == new else "missing" if state is None else "other"
+            fc = dict(case, fault=f)
+            run.case(["interactive", f.get("mode"), f.get("k"), _pclass(f.get("prefix"), len(new)), f.get("stale_part")],
+                     True, sample=fc, classes=["interactive", verdict])
+            if verdict in ("missing", "other"):
+                run.fail("impl-vs-spec", fc, {"why": f"metafile path holds {verdict}",
+                                              "size": None if state is None else len(state),
+                                              "old": len(old), "new": len(new)})
+
+
 def second_edit_after_crash(run, rng, box, m, req, pool):
     """An edit dies after writing '<metafile>.part' (before the rename); a later, fault-free
     edit of the same metafile must leave exactly its own complete result."""
@@ -242,11 +289,17 @@ def run(tier, seed, replay=None):
     impl.use_repo()
     run = Run("C17", tier, seed, RULE)
     drv = Driver()
+    if replay and replay["case"].get("route") == "interactive":
+        with concurrent.futures.ThreadPoolExecutor(max_workers=8) as pool:
+            interactive_route(run, pool)
+        return run.finish()
     seeds = [replay["case"]["case_seed"]] if replay else \
-        [-1, -2, -3] + [run.rng.randrange(10 ** 9) for _ in range(6 if tier == "quick" else 40)]
+        [-1, -2, -3, -4, -5] + [run.rng.randrange(10 ** 9) for _ in range(6 if tier == "quick" else 40)]
     with concurrent.futures.ThreadPoolExecutor(max_workers=12) as pool:
         for s in seeds:
             run_case(run, drv, s, pool)
+        if not replay:
+            interactive_route(run, pool)
     for (kind, case, got), req, out in drv.run():
         if out.startswith("ERR"):
             if os.environ.get("VERIF_DEV") and "bad-op" in out:
